@@ -15,7 +15,7 @@ def okVal {α : Type} : Res α → Option α | .ok a => some a | _ => none
 
 /-! ## generic fold facts -/
 
-private theorem foldl_inv {σ α : Type} (P : σ → Prop) (f : σ → α → σ) (h : ∀ s a, P s → P (f s a)) :
+theorem foldl_inv {σ α : Type} (P : σ → Prop) (f : σ → α → σ) (h : ∀ s a, P s → P (f s a)) :
     ∀ (l : List α) (s : σ), P s → P (l.foldl f s) := by
   intro l
   induction l with
@@ -60,10 +60,10 @@ example : tally "sc" [{ addr := "a0", bonded := 6, shares := Dec.ofInt 6 }]
 
 /-! ## 2. totality: no division by zero -/
 
-private theorem look_mem {vs : List Val} {k : String} {v : Val} (h : look vs k = some v) : v ∈ vs :=
+theorem look_mem {vs : List Val} {k : String} {v : Val} (h : look vs k = some v) : v ∈ vs :=
   List.mem_of_find?_eq_some h
 
-private theorem step1_ok (sc : String) (vs : List Val) (hz : ∀ v ∈ vs, v.shares.raw ≠ 0) (s : Acc) (d : Deleg)
+theorem step1_ok (sc : String) (vs : List Val) (hz : ∀ v ∈ vs, v.shares.raw ≠ 0) (s : Acc) (d : Deleg)
     (hs : s.ok = true) : (step1 sc vs s d).ok = true := by
   unfold step1
   by_cases hd : d.delegator ≠ sc
@@ -73,7 +73,7 @@ private theorem step1_ok (sc : String) (vs : List Val) (hz : ∀ v ∈ vs, v.sha
     | none => exact hs
     | some v => simp [hs, hz v (look_mem hl)]
 
-private theorem stepDel_ok (vs : List Val) (hz : ∀ v ∈ vs, v.shares.raw ≠ 0) (voter : String) (opts : List WOpt)
+theorem stepDel_ok (vs : List Val) (hz : ∀ v ∈ vs, v.shares.raw ≠ 0) (voter : String) (opts : List WOpt)
     (s : Acc) (d : Deleg) (hs : s.ok = true) : (stepDel vs voter opts s d).ok = true := by
   unfold stepDel
   by_cases hd : d.delegator ≠ voter
@@ -83,7 +83,7 @@ private theorem stepDel_ok (vs : List Val) (hz : ∀ v ∈ vs, v.shares.raw ≠ 
     | none => exact hs
     | some v => simp [hs, hz v (look_mem hl)]
 
-private theorem step2_ok (sc : String) (vs : List Val) (ds : List Deleg) (hz : ∀ v ∈ vs, v.shares.raw ≠ 0)
+theorem step2_ok (sc : String) (vs : List Val) (ds : List Deleg) (hz : ∀ v ∈ vs, v.shares.raw ≠ 0)
     (s : Acc) (vt : Vote) (hs : s.ok = true) : (step2 sc vs ds s vt).ok = true := by
   unfold step2
   by_cases hv : vt.voter = sc
@@ -128,14 +128,14 @@ example : ∃ r, tally "sc" [{ addr := "a0", bonded := 5, shares := Dec.ofInt 5 
 
 /-! ## 3. the turnout formula -/
 
-private theorem acc_fst : ∀ (bs : List Ballot) (a : Dec × Results),
+theorem acc_fst : ∀ (bs : List Ballot) (a : Dec × Results),
     (bs.foldl addBallot a).1 = bs.foldl (fun t b => t.add b.power) a.1 := by
   intro bs
   induction bs with
   | nil => intro a; rfl
   | cons b l ih => intro a; simp only [List.foldl_cons]; rw [ih]; rfl
 
-private theorem pass1_scBonded (sc : String) (vs : List Val) : ∀ (ds : List Deleg) (s : Acc),
+theorem pass1_scBonded (sc : String) (vs : List Val) : ∀ (ds : List Deleg) (s : Acc),
     (pass1 sc vs ds s).scBonded = ds.foldl (fun t d => if d.delegator ≠ sc then t else
       match look vs d.validator with
       | none => t
@@ -154,14 +154,14 @@ private theorem pass1_scBonded (sc : String) (vs : List Val) : ∀ (ds : List De
     · rw [if_neg hd, if_neg hd]
       cases look vs d.validator <;> rfl
 
-private theorem stepDel_scBonded (vs : List Val) (voter : String) (opts : List WOpt) (s : Acc) (d : Deleg) :
+theorem stepDel_scBonded (vs : List Val) (voter : String) (opts : List WOpt) (s : Acc) (d : Deleg) :
     (stepDel vs voter opts s d).scBonded = s.scBonded := by
   unfold stepDel
   by_cases hd : d.delegator ≠ voter
   · rw [if_pos hd]
   · rw [if_neg hd]; cases look vs d.validator <;> rfl
 
-private theorem step2_scBonded (sc : String) (vs : List Val) (ds : List Deleg) (s : Acc) (vt : Vote) :
+theorem step2_scBonded (sc : String) (vs : List Val) (ds : List Deleg) (s : Acc) (vt : Vote) :
     (step2 sc vs ds s vt).scBonded = s.scBonded := by
   unfold step2
   by_cases hv : vt.voter = sc
@@ -170,7 +170,7 @@ private theorem step2_scBonded (sc : String) (vs : List Val) (ds : List Deleg) (
     exact foldl_inv (fun x : GovTally.Acc => x.scBonded = s.scBonded) (stepDel vs vt.voter vt.options)
       (fun x a h => by rw [stepDel_scBonded]; exact h) ds _ (by cases look vs vt.voter <;> rfl)
 
-private theorem finalAcc_scBonded (sc : String) (vs : List Val) (ds : List Deleg) (votes : List Vote) :
+theorem finalAcc_scBonded (sc : String) (vs : List Val) (ds : List Deleg) (votes : List Vote) :
     (finalAcc sc vs ds votes).scBonded = nonVotingBonded sc vs ds := by
   have h2 : (finalAcc sc vs ds votes).scBonded = (pass1 sc vs ds (Acc.init vs)).scBonded :=
     foldl_inv (fun x : GovTally.Acc => x.scBonded = (pass1 sc vs ds (Acc.init vs)).scBonded) (step2 sc vs ds)
@@ -219,7 +219,7 @@ example : okVal (tally "sc" [{ addr := "a0", bonded := 6, shares := Dec.ofInt 6 
 
 /-! ## 4. the order of the Go map `validators` does not matter -/
 
-private theorem look_perm {vs₁ vs₂ : List Val} (p : vs₁.Perm vs₂) (nd : (vs₁.map Val.addr).Nodup) (k : String) :
+theorem look_perm {vs₁ vs₂ : List Val} (p : vs₁.Perm vs₂) (nd : (vs₁.map Val.addr).Nodup) (k : String) :
     look vs₁ k = look vs₂ k := by
   induction p with
   | nil => rfl
@@ -241,7 +241,7 @@ private theorem look_perm {vs₁ vs₂ : List Val} (p : vs₁.Perm vs₂) (nd : 
   | trans p₁ _ ih₁ ih₂ =>
     rw [ih₁ nd, ih₂ ((p₁.map Val.addr).nodup_iff.mp nd)]
 
-private theorem finalAcc_congr (sc : String) (vs₁ vs₂ : List Val) (ds : List Deleg) (votes : List Vote)
+theorem finalAcc_congr (sc : String) (vs₁ vs₂ : List Val) (ds : List Deleg) (votes : List Vote)
     (h : look vs₁ = look vs₂) : finalAcc sc vs₁ ds votes = finalAcc sc vs₂ ds votes := by
   have e1 : step1 sc vs₁ = step1 sc vs₂ := by funext s d; simp only [step1, h]
   have e2 : stepDel vs₁ = stepDel vs₂ := by funext a b c d; simp only [stepDel, h]
@@ -249,10 +249,10 @@ private theorem finalAcc_congr (sc : String) (vs₁ vs₂ : List Val) (ds : List
   have e4 : Acc.init vs₁ = Acc.init vs₂ := by simp only [Acc.init, h]
   simp only [finalAcc, pass1, pass2, e1, e3, e4]
 
-private theorem dec_ext {a b : Dec} (h : a.raw = b.raw) : a = b := by
+theorem dec_ext {a b : Dec} (h : a.raw = b.raw) : a = b := by
   cases a; cases b; simp only at h; subst h; rfl
 
-private theorem addTo_comm (r : Results) (k j : Nat) (x y : Dec) :
+theorem addTo_comm (r : Results) (k j : Nat) (x y : Dec) :
     (r.addTo k x).addTo j y = (r.addTo j y).addTo k x := by
   have hc : ∀ a : Dec, (a.add x).add y = (a.add y).add x := by
     intro a; apply dec_ext; simp only [Dec.add]; omega
@@ -263,28 +263,28 @@ private theorem addTo_comm (r : Results) (k j : Nat) (x y : Dec) :
   | omega
   | simp [k1, k2, k3, k4, k5, j1, j2, j3, j4, j5, hc]
 
-private def addW (r : Results) (e : Nat × Dec) : Results := r.addTo e.1 e.2
+def addW (r : Results) (e : Nat × Dec) : Results := r.addTo e.1 e.2
 
-private theorem optsFold_eq (p : Dec) (opts : List WOpt) (r : Results) :
+theorem optsFold_eq (p : Dec) (opts : List WOpt) (r : Results) :
     opts.foldl (fun r o => r.addTo o.opt (p.mul o.weight)) r
       = (opts.map (fun o => (o.opt, p.mul o.weight))).foldl addW r := by
   rw [List.foldl_map]; rfl
 
-private theorem foldl_comm1 {α β : Type} (f : β → α → β) (hf : ∀ z a b, f (f z a) b = f (f z b) a) :
+theorem foldl_comm1 {α β : Type} (f : β → α → β) (hf : ∀ z a b, f (f z a) b = f (f z b) a) :
     ∀ (ys : List α) (z : β) (x : α), ys.foldl f (f z x) = f (ys.foldl f z) x := by
   intro ys
   induction ys with
   | nil => intro z x; rfl
   | cons y l ih => intro z x; simp only [List.foldl_cons]; rw [hf z x y]; exact ih (f z y) x
 
-private theorem foldl_swap {α β : Type} (f : β → α → β) (hf : ∀ z a b, f (f z a) b = f (f z b) a) :
+theorem foldl_swap {α β : Type} (f : β → α → β) (hf : ∀ z a b, f (f z a) b = f (f z b) a) :
     ∀ (xs ys : List α) (z : β), ys.foldl f (xs.foldl f z) = xs.foldl f (ys.foldl f z) := by
   intro xs
   induction xs with
   | nil => intro ys z; rfl
   | cons x l ih => intro ys z; simp only [List.foldl_cons]; rw [ih ys (f z x), foldl_comm1 f hf ys z x]
 
-private theorem addBallot_comm (z : Dec × Results) (x y : Ballot) :
+theorem addBallot_comm (z : Dec × Results) (x y : Ballot) :
     addBallot (addBallot z x) y = addBallot (addBallot z y) x := by
   unfold addBallot
   simp only [optsFold_eq]
